@@ -502,7 +502,14 @@ impl std::io::Write for FileSpillWriter {
             )));
         }
 
-        self.file.write_all(buf).map_err(DataFusionError::IoError)?;
+        if let Err(e) = self.file.write_all(buf).map_err(DataFusionError::IoError) {
+            // the bytes were charged to the global counter above but never reached the
+            // per-file counter: give them back, otherwise they are never released
+            self.disk_manager
+                .used_disk_space
+                .fetch_sub(len, Ordering::Relaxed);
+            return Err(e.into());
+        }
 
         self.current_file_disk_usage
             .fetch_add(len, Ordering::Relaxed);
